@@ -57,6 +57,24 @@ enum E {
     Red(&'static str, Box<E>),
     Mux(Box<E>, Box<E>, Box<E>),
     Cat(Vec<E>),
+    /// a domain-less selector (literal, module param, const, const expression): text and, when it
+    /// cannot be overridden, its value
+    Kc(String, Option<u64>),
+    /// `case <Kc selector> { l0: e0, l1: e1, default: e }` (selector is 2 bits wide)
+    CaseX(Box<E>, Vec<(u64, E)>, Box<E>),
+}
+
+thread_local! {
+    /// reference mode: when set, a branch that a fixed (non-overridable) selector can never select
+    /// is not followed (two readings of "data that can reach the destination")
+    static LIVE_ONLY: std::cell::Cell<bool> = const { std::cell::Cell::new(false) };
+}
+
+fn sel_value(c: &E) -> Option<u64> {
+    match c {
+        E::Kc(_, v) if LIVE_ONLY.get() => *v,
+        _ => None,
+    }
 }
 
 #[derive(Clone, Debug)]
@@ -121,10 +139,29 @@ fn doms(d: &Design, e: &E, out: &mut BTreeSet<usize>) {
         }
         E::Mux(c, a, b) => {
             doms(d, c, out);
-            doms(d, a, out);
-            doms(d, b, out);
+            match sel_value(c) {
+                Some(0) => doms(d, b, out),
+                Some(_) => doms(d, a, out),
+                None => {
+                    doms(d, a, out);
+                    doms(d, b, out);
+                }
+            }
         }
         E::Cat(p) => p.iter().for_each(|x| doms(d, x, out)),
+        E::Kc(..) => {}
+        E::CaseX(c, arms, def) => match sel_value(c) {
+            Some(v) => match arms.iter().find(|(l, _)| *l == v) {
+                Some((_, e)) => doms(d, e, out),
+                None => doms(d, def, out),
+            },
+            None => {
+                for (_, e) in arms {
+                    doms(d, e, out);
+                }
+                doms(d, def, out);
+            }
+        },
     }
 }
 
@@ -220,12 +257,24 @@ fn crossings(d: &Design, it: &Item) -> Vec<&'static str> {
 
 #[derive(Clone, Debug)]
 struct Expected {
+    /// a crossing exists only through a branch that a fixed selector never selects: the text does not
+    /// decide whether that is "data moving", no verdict against the reference
+    only_dead_branch_crossing: bool,
     crossing_outside_unsafe: bool,
     kinds_outside: Vec<&'static str>,
     crossings_inside_unsafe: usize,
 }
 
 fn reference(d: &Design) -> Expected {
+    LIVE_ONLY.set(true);
+    let live = reference_mode(d);
+    LIVE_ONLY.set(false);
+    let mut any = reference_mode(d);
+    any.only_dead_branch_crossing = any.crossing_outside_unsafe && !live.crossing_outside_unsafe;
+    any
+}
+
+fn reference_mode(d: &Design) -> Expected {
     let mut kinds = BTreeSet::new();
     let mut inside = 0;
     for it in &d.items {
@@ -239,7 +288,7 @@ fn reference(d: &Design) -> Expected {
             kinds.extend(c);
         }
     }
-    Expected { crossing_outside_unsafe: !kinds.is_empty(), kinds_outside: kinds.into_iter().collect(), crossings_inside_unsafe: inside }
+    Expected { only_dead_branch_crossing: false, crossing_outside_unsafe: !kinds.is_empty(), kinds_outside: kinds.into_iter().collect(), crossings_inside_unsafe: inside }
 }
 
 // ───────────────────────────── generator ─────────────────────────────
@@ -251,6 +300,9 @@ struct Gen<'a> {
     feats: BTreeSet<String>,
     /// permille: a leaf reference may come from a foreign domain
     p_foreign: u64,
+    /// permille: an expression node becomes a ternary / case expression with a domain-less selector
+    p_ksel: u64,
+    ndom: usize,
 }
 
 impl<'a> Gen<'a> {
@@ -306,8 +358,83 @@ impl<'a> Gen<'a> {
         self.leaf_sig(w, dom, r)
     }
 
+    /// a 1-bit selector without clock domain
+    fn ksel(&mut self) -> E {
+        let (t, v, kind): (&str, Option<u64>, &str) = *self.rng.pick(&[
+            ("1'h1", Some(1), "literal"),
+            ("1'h0", Some(0), "literal"),
+            ("(2'h1 == 2'h1)", Some(1), "const-expression"),
+            ("(3 <: 2)", Some(0), "const-expression"),
+            ("P_B1", None, "param"),
+            ("P_B0", None, "param"),
+            ("(P_N1 == 1)", None, "param"),
+            ("(P_N0 != 0)", None, "param"),
+            ("(P_W >: 2)", None, "param"),
+            ("(!P_B1)", None, "param"),
+            ("C_B1", Some(1), "const"),
+            ("C_B0", Some(0), "const"),
+            ("(C_W >: 2)", Some(1), "const"),
+            ("(C_W <: 3)", Some(0), "const"),
+        ]);
+        self.feat(&format!("ternary:selector-{kind}"));
+        E::Kc(t.to_string(), v)
+    }
+
+    /// one branch of a selector expression: home domain, or (independently) some other domain
+    fn ksel_branch(&mut self, w: usize, depth: usize, dom: usize, r: usize, pos: &str) -> E {
+        let bd = if self.rng.chance(1, 3) { self.rng.usize(self.ndom) } else { dom };
+        if bd != dom {
+            self.feat(&format!("ternary:{pos}-branch-foreign"));
+        }
+        // selector expressions nest at most once more
+        let save = self.p_ksel;
+        if depth <= 1 {
+            self.p_ksel = 0;
+        }
+        let e = self.expr(w, depth.saturating_sub(1).min(1), bd, r);
+        self.p_ksel = save;
+        e
+    }
+
+    /// ternary / nested ternary / case expression whose selector has no clock domain
+    fn ksel_expr(&mut self, w: usize, depth: usize, dom: usize, r: usize) -> E {
+        self.feat("ternary:domainless-selector");
+        match self.rng.below(10) {
+            0..=5 => {
+                let c = self.ksel();
+                let a = self.ksel_branch(w, depth, dom, r, "then");
+                let b = self.ksel_branch(w, depth, dom, r, "else");
+                E::Mux(Box::new(c), Box::new(a), Box::new(b))
+            }
+            6..=7 => {
+                self.feat("ternary:nested");
+                let c1 = self.ksel();
+                let c2 = self.ksel();
+                let a = self.ksel_branch(w, 0, dom, r, "then");
+                let b = self.ksel_branch(w, 0, dom, r, "then");
+                let c = self.ksel_branch(w, 0, dom, r, "else");
+                let inner = E::Mux(Box::new(c2), Box::new(b), Box::new(c));
+                if self.rng.bool() { E::Mux(Box::new(c1), Box::new(a), Box::new(inner)) } else { E::Mux(Box::new(c1), Box::new(inner), Box::new(a)) }
+            }
+            _ => {
+                self.feat("ternary:case-expression");
+                let (t, v, kind): (&str, Option<u64>, &str) = *self.rng.pick(&[("P_IDX", None, "param"), ("C_IDX", Some(2), "const"), ("2'h1", Some(1), "literal")]);
+                self.feat(&format!("ternary:selector-{kind}"));
+                let mut labels: Vec<u64> = (0..4).collect();
+                self.rng.shuffle(&mut labels);
+                let n = 1 + self.rng.usize(2);
+                let arms = labels[..n].iter().map(|l| (*l, self.ksel_branch(w, 0, dom, r, "then"))).collect();
+                let def = self.ksel_branch(w, 0, dom, r, "else");
+                E::CaseX(Box::new(E::Kc(t.to_string(), v)), arms, Box::new(def))
+            }
+        }
+    }
+
     /// an expression that contains at least one signal
     fn expr(&mut self, w: usize, depth: usize, dom: usize, r: usize) -> E {
+        if self.rng.below(1000) < self.p_ksel {
+            return self.ksel_expr(w, depth, dom, r);
+        }
         if depth == 0 {
             return self.leaf_sig(w, dom, r);
         }
@@ -370,8 +497,14 @@ impl<'a> Gen<'a> {
 fn generate(rng: &mut Rng) -> Design {
     let ndom = 2 + rng.usize(2);
     // per design: how often a reference strays into a foreign domain
-    let p_foreign = *rng.pick(&[0u64, 0, 40, 90, 160, 300]);
-    let mut g = Gen { rng, sigs: vec![], rank: vec![], feats: BTreeSet::new(), p_foreign };
+    let mut p_foreign = *rng.pick(&[0u64, 0, 40, 90, 160, 300]);
+    // two thirds of the designs use domain-less selectors; in half of those nothing else strays, so
+    // the selector expression is the only possible source of a crossing
+    let p_ksel = *rng.pick(&[0u64, 120, 250]);
+    if p_ksel > 0 && rng.bool() {
+        p_foreign = 0;
+    }
+    let mut g = Gen { rng, sigs: vec![], rank: vec![], feats: BTreeSet::new(), p_foreign, p_ksel, ndom };
     if ndom == 3 {
         g.feat("domains:three");
     } else {
@@ -581,6 +714,15 @@ fn expr_text(d: &Design, e: &E) -> String {
         E::Red(op, a) => format!("({}{})", op, expr_text(d, a)),
         E::Mux(c, a, b) => format!("(if {} ? {} : {})", expr_text(d, c), expr_text(d, a), expr_text(d, b)),
         E::Cat(p) => format!("{{{}}}", p.iter().map(|x| expr_text(d, x)).collect::<Vec<_>>().join(", ")),
+        E::Kc(t, _) => t.clone(),
+        E::CaseX(c, arms, def) => {
+            let mut s = format!("(case {} {{ ", expr_text(d, c));
+            for (l, e) in arms {
+                s.push_str(&format!("2'd{l}: {}, ", expr_text(d, e)));
+            }
+            s.push_str(&format!("default: {} }})", expr_text(d, def)));
+            s
+        }
     }
 }
 
@@ -643,7 +785,7 @@ module Sync2 (
 fn render(d: &Design, inferred: bool, order: &[usize]) -> String {
     let mut o = String::from(LIB);
     let ann = |s: &Sig| -> String { if inferred && s.infer { String::new() } else { format!("{} ", DOMS[s.dom]) } };
-    o.push_str("module Top (\n");
+    o.push_str("module Top #(\n    param P_B1: bit = 1,\n    param P_B0: bit = 0,\n    param P_N1: u32 = 1,\n    param P_N0: u32 = 0,\n    param P_W: u32 = 4,\n    param P_IDX: bit<2> = 1,\n    const C_B1: bit = 1,\n    const C_B0: bit = 0,\n    const C_W: u32 = 4,\n    const C_IDX: bit<2> = 2,\n) (\n");
     for s in &d.sigs {
         match s.kind {
             Kind::Clock => o.push_str(&format!("    {}: input {} clock,\n", s.name, DOMS[s.dom])),
@@ -737,6 +879,13 @@ fn reads_of(d: &Design, it: &Item, out: &mut BTreeSet<usize>) {
                 ex(b, out)
             }
             E::Cat(p) => p.iter().for_each(|x| ex(x, out)),
+            E::Kc(..) => {}
+            E::CaseX(_, arms, def) => {
+                for (_, e) in arms {
+                    ex(e, out);
+                }
+                ex(def, out)
+            }
         }
     }
     fn st(s: &[S], out: &mut BTreeSet<usize>) {
@@ -863,8 +1012,21 @@ fn judge(run: &Run, hist: &Hist, i: u64, seed: u64, o: &CaseOut) {
     }
     run.count("designs_judged", 1);
     run.nontrivial(hash_str(&o.text_explicit));
-    let class = if o.exp.crossing_outside_unsafe { "expected_report" } else { "expected_clean" };
+    let class = if o.exp.only_dead_branch_crossing {
+        "no_verdict_crossing_only_through_a_never_selected_branch"
+    } else if o.exp.crossing_outside_unsafe {
+        "expected_report"
+    } else {
+        "expected_clean"
+    };
     run.count(class, 1);
+    if o.feats.iter().any(|f| f == "ternary:domainless-selector") {
+        run.count("ternary_domainless_condition_designs", 1);
+        run.count(&format!("ternary_domainless_condition_{class}"), 1);
+        if o.exp.kinds_outside.is_empty() && o.exp.crossings_inside_unsafe > 0 {
+            run.count("ternary_domainless_condition_clean_only_because_of_unsafe_cdc", 1);
+        }
+    }
     if !o.exp.crossing_outside_unsafe && o.exp.crossings_inside_unsafe > 0 {
         run.count("clean_only_because_crossings_are_inside_unsafe_cdc", 1);
     }
@@ -896,6 +1058,11 @@ fn judge(run: &Run, hist: &Hist, i: u64, seed: u64, o: &CaseOut) {
             continue;
         }
         let got = an.has(CODE);
+        if o.exp.only_dead_branch_crossing {
+            // both readings of the text are accepted; what the tool does is recorded only
+            run.count(&format!("{which}_never_selected_branch_crossing_{}", if got { "reported" } else { "accepted" }), 1);
+            continue;
+        }
         run.count(&format!("{which}_renderings_compared"), 1);
         if got == want {
             continue;
@@ -994,7 +1161,7 @@ pub fn main(args: Args) {
         std::process::exit(0);
     }
 
-    let n = args.budget("cases", 500, 40_000);
+    let n = args.budget("cases", 1500, 40_000);
     let seed = args.seed;
     let run2 = run.clone();
     let hist2 = hist.clone();
@@ -1021,5 +1188,8 @@ pub fn main(args: Args) {
         ("clean_only_because_crossings_are_inside_unsafe_cdc", sc(8)),
         ("designs_with_inferred_signals", sc(100)),
         ("order_twins_compared", sc(100)),
+        ("ternary_domainless_condition_designs", sc(100)),
+        ("ternary_domainless_condition_expected_report", sc(30)),
+        ("ternary_domainless_condition_expected_clean", sc(25)),
     ]);
 }
